@@ -404,6 +404,19 @@ pub open spec fn advanced(it: StateItem) -> StateItem { StateItem { rule_index: 
 /// the rules of the validated file as File::get_rules lists them (one per struct / enum variant, declaration order)
 pub uninterp spec fn file_rules(f: &crate::data::validated_file::File) -> Seq<Rule<'_>>;
 
+/// fs is the fieldset of the struct, or of a variant of the enum
+pub open spec fn nt_has_fieldset(nt: Nonterminal, fs: Fieldset) -> bool {
+    match nt {
+        Nonterminal::Struct(s) => s.fieldset == fs,
+        Nonterminal::Enum(e) => exists|k: int| 0 <= k < e.variants@.len() && (#[trigger] e.variants@[k]).fieldset == fs,
+    }
+}
+/// trusted (contract of the T leaf File::get_rules, read off its body): every rule is built from the fieldset of a struct
+/// or of an enum variant of the file
+pub axiom fn axiom_file_rules_fieldsets(f: &crate::data::validated_file::File)
+    ensures forall|ri: int| 0 <= ri < file_rules(f).len() ==>
+        exists|j: int| 0 <= j < f.nonterminals@.len() && nt_has_fieldset(#[trigger] f.nonterminals@[j], *(#[trigger] file_rules(f)[ri]).fieldset);
+
 /// [S' -> . start, $]
 pub open spec fn start_item() -> StateItem { StateItem { rule_index: RuleIndex::Augmented, lookahead: Lookahead::Eof, dot: 0 } }
 
